@@ -234,6 +234,8 @@ func c11Shape(key, ver int16, reply []byte) (shape int, dec bool) {
 	return 2, d0 || d1
 }
 
+const c11Deadline = 3 * time.Second
+
 type c11Obs struct {
 	panicked    bool
 	msg         string
@@ -242,6 +244,7 @@ type c11Obs struct {
 	replied     bool
 	unsupported bool
 	guard       bool
+	hung        bool // Handle returned only because the harness's deadline cancelled the context
 }
 
 func c11ViaHandle(h *handler, payload []byte) (o c11Obs) {
@@ -255,10 +258,14 @@ func c11ViaHandle(h *handler, payload []byte) (o c11Obs) {
 		o.err = fmt.Errorf("parse: %w", err)
 		return o
 	}
-	ctx, cancel := context.WithTimeout(context.Background(), 10*time.Second)
+	// the real server's context has no deadline: a handler that returns only when this one
+	// expires would never answer
+	ctx, cancel := context.WithTimeout(context.Background(), c11Deadline)
 	defer cancel()
+	t0 := time.Now()
 	resp, err := h.Handle(ctx, header, req)
 	o.err = err
+	o.hung = ctx.Err() != nil && time.Since(t0) >= c11Deadline
 	if err != nil {
 		o.unsupported = errors.Is(err, ErrUnsupportedAPI)
 		o.guard = strings.Contains(err.Error(), "version") && strings.Contains(err.Error(), "not supported")
@@ -329,6 +336,10 @@ func TestVerifC11(t *testing.T) {
 			rep.Fail("panic", key("panic"), fmt.Sprintf("%s v%d: handler panicked: %s", name, cs.Version, o.msg), cs)
 			return
 		}
+		if o.hung {
+			rep.Fail("advertised-served", "no-reply-hang:"+name, fmt.Sprintf("%s v%d: handler.Handle did not return until the harness cancelled its context after %v (the server's context has no deadline: the client never gets a reply and the goroutine spins)", name, cs.Version, c11Deadline), cs)
+			return
+		}
 		if advertised {
 			if o.err != nil {
 				rep.Fail("advertised-served", key("advertised-rejected"), fmt.Sprintf("advertised %s v%d answered with an error instead of a reply: %v", name, cs.Version, o.err), cs)
@@ -369,7 +380,11 @@ func TestVerifC11(t *testing.T) {
 	}
 
 	runHandle := func(cs c11Case) {
+		t0 := time.Now()
 		o := c11ViaHandle(h, c11Payload(cs.Key, cs.Version, 0x0badcafe, cs.Body))
+		if d := time.Since(t0); d > 300*time.Millisecond {
+			rep.Hist("slow-" + kmsg.NameForKey(cs.Key))
+		}
 		if o.err != nil && strings.HasPrefix(o.err.Error(), "parse:") {
 			rep.Hist("body-rejected-by-kmsg")
 			return
@@ -443,8 +458,23 @@ func TestVerifC11(t *testing.T) {
 			runHandle(cs)
 		}
 	} else {
+		// corpus: the shape of an earlier finding first — Produce to a partition index the (auto-created)
+		// topic does not have made getPartitionLog retry ensureTopic forever
+		{
+			rq := kmsg.NewPtrProduceRequest()
+			rq.SetVersion(7)
+			rq.Acks = -1
+			rq.TimeoutMillis = 10
+			tp := kmsg.NewProduceRequestTopic()
+			tp.Topic = "c11-corpus"
+			pp := kmsg.NewProduceRequestTopicPartition()
+			pp.Partition = -1
+			tp.Partitions = append(tp.Partitions, pp)
+			rq.Topics = append(rq.Topics, tp)
+			runHandle(c11Case{Key: 0, Version: 7, Body: rq.AppendTo(nil), Via: "handle", Class: "generated-body"})
+		}
 		r := vNewRand(vSeed())
-		per := vN(4, 40)
+		per := vN(3, 40)
 		for _, e := range adv {
 			for v := e.MinVersion; v <= e.MaxVersion && v >= 0; v++ {
 				for k := 0; k < per; k++ {
